@@ -155,6 +155,15 @@ fn dict_ops(d: &[u8]) -> Vec<(u16, Vec<i64>)> {
     out
 }
 
+/// Charstring `g` of a CFF 1 table, raw bytes (for reports).
+pub fn cff_charstring(d: &[u8], g: usize) -> Option<Vec<u8>> {
+    let hdr = *d.get(2)? as usize;
+    let (_, _, _, after_name) = index_at(d, hdr)?;
+    let top = index_obj(d, after_name, 0)?;
+    let cs = dict_ops(top).iter().find(|o| o.0 == 17)?.1.first().copied()? as usize;
+    index_obj(d, cs, g).map(|b| b.to_vec())
+}
+
 #[derive(Clone, Debug, Default)]
 pub struct CffFacts {
     pub cid: bool,
